@@ -40,6 +40,12 @@ def whitening(ctx):
     cl = K.check_function(I, "whitening.Whitening.fit", lambda: ([mk_obj(I, "Whitening"), input_arr("X", (L.Nn, ONE))], {}),
                           L.spec_whitening_fit, L.facts(), "C14.white.numpy.single-feature", state_names={0: "self"}, structural=False)
     out += cl
+    # an estimator that was fitted before (on other data) is fitted again: the result does not depend on the earlier fit
+    I = new_interp()
+    out += K.check_function(I, "whitening.Whitening.fit",
+                            lambda: ([mk_obj(I, "Whitening", weights=input_arr("W0", (L.Dd, L.Dd)), input_subtract=input_arr("mu0", (L.Dd,)), input_divide=1.0),
+                                      input_arr("X", (L.Nn, L.Dd))], {}),
+                            L.spec_whitening_fit, L.facts(), "C14.white.numpy.refit", state_names={0: "self"}, structural=False)
     # transform = (X - mu) @ W
     I = new_interp()
 
@@ -59,15 +65,18 @@ def whitening(ctx):
 
 def wccn(ctx):
     out = []
-    for kind, pinv, intdata in (("numpy", False, False), ("numpy", True, False), ("dask", False, False), ("numpy", False, True)):
+    for kind, pinv, intdata in (("numpy", False, False), ("numpy", True, False), ("dask", False, False), ("numpy", False, True), ("numpy", "refit", False)):
         I = new_interp()
+        refit = pinv == "refit"       # fitted before, on other data
+        pinv = False if refit else pinv
         IN.LabelSet.count = 0
         holder = {}
 
-        def build(kind=kind, pinv=pinv, intdata=intdata):
+        def build(kind=kind, pinv=pinv, intdata=intdata, refit=refit):
             IN.LabelSet.count = 0
             X = input_arr("X", (L.Nn, L.Dd), kind, dtype="int", narrow=True) if intdata else input_arr("X", (L.Nn, L.Dd), kind)
-            return [mk_obj(I, "WCCN", pinv=pinv), X, input_arr("y", (L.Nn,), dtype="int")], {}
+            old = dict(weights=input_arr("W0", (L.Dd, L.Dd)), input_subtract=0, input_divide=1.0) if refit else {}
+            return [mk_obj(I, "WCCN", pinv=pinv, **old), X, input_arr("y", (L.Nn,), dtype="int")], {}
 
         enum_name = ["pi1"]
 
@@ -97,7 +106,7 @@ def wccn(ctx):
         F = L.facts()
         F.dims.add("K_pi1")
         F.pos_syms.add("K_pi1")
-        cl = K.check_function(I, "wccn.WCCN.fit", build, spec, F, "C14.wccn.%s%s%s" % (kind, ".pinv" if pinv else "", ".intdata" if intdata else ""), state_names={0: "self"}, structural=False)
+        cl = K.check_function(I, "wccn.WCCN.fit", build, spec, F, "C14.wccn.%s%s%s%s" % (kind, ".pinv" if pinv else "", ".intdata" if intdata else "", ".refit" if refit else ""), state_names={0: "self"}, structural=False)
         out += cl
     res = []
     num = [c for c in out if ".numpy" in c.name]
